@@ -5,7 +5,7 @@ PC=${PC:-/tmp/pcdbg4}; T=${T:-/tmp/dbg4}
 while read r props; do
   [ -z "$r" ] && continue
   git -C $T checkout -q -- . && git -C $T clean -fdq
-  if ! git -C $T apply /tmp/seedout3/$r/patch.diff 2>/dev/null; then echo "== $r PATCH-DOES-NOT-APPLY"; continue; fi
+  if ! git -C $T apply /verif/refactors/${r/\//-}/patch.diff 2>/dev/null; then echo "== $r PATCH-DOES-NOT-APPLY"; continue; fi
   out=""
   for p in $props; do
     o=$($PC -property $p -tier quick -nocache -dir $T 2>&1 | grep -E "violated|CHECK-BROKEN|could not run" | cut -c1-260)
